@@ -6,13 +6,32 @@ Import ListNotations.
 Local Open Scope Z_scope.
 
 Definition ex_hist : list op :=
-  [OCreate 0 3; OCopy 1 0; OCopy 2 0; OWrite 1; OWrite 1; OAssign 2 1; ODestroy 0; OReset 1; ODestroy 1; ODestroy 2].
+  [OCreate 0 83; OCopy 1 0; OCopy 2 0; OWrite 1 4; OWrite 1 5; OAssign 2 1; ODestroy 0; OReset 1; ODestroy 1; ODestroy 2].
+
+(* Variant: value assignment (cloning while shared, in place when alone); Ptr: raw-pointer assignment of the own object *)
+Definition ex_hist_var : list op :=
+  [OCreate 0 10; OCopy 1 0; OAssignVal 1 83; OAssignVal 1 84; OWrite 0 7; ODestroy 0; ODestroy 1].
+Definition ex_hist_ptr : list op :=
+  [OCreate 0 5; OAssignRaw 0 0; OCopy 1 0; OCreate 2 6; OAssignRaw 1 2; OSwap 0 2; ODestroy 0; ODestroy 1; ODestroy 2].
 
 Definition ex_cfg : list (nat * list cop) :=
-  [(1%nat, [CWrite 0 false; CCopy 1 0; CWrite 1 false; CDrop 0; CDrop 1]);
-   (2%nat, [CAssign 0 1; CWrite 1 true; CSwap 0 1; CDrop 0; CRead 1; CDrop 1]);
-   (1%nat, [CWrite 0 false; CWrite 0 false; CDrop 0])].
+  [(1%nat, [CWrite 0 (WAppend 1); CCopy 1 0; CWrite 1 (WAppend 2); CDrop 0; CDrop 1]);
+   (2%nat, [CAssign 0 1; CWrite 1 WReserve; CSwap 0 1; CDrop 0; CRead 1; CDrop 1]);
+   (1%nat, [CWrite 0 (WAppend 3); CWrite 0 WClear; CDrop 0])].
 
 Definition ex_rr : list nat := flat_map (fun _ => [0; 1; 2]%nat) (seq 0 30).
 
 Definition ex_seq : list nat := repeat 2%nat 15 ++ repeat 1%nat 30 ++ repeat 0%nat 25.
+
+(* an access trace as the harness records it: two threads, one handle each to a String "3" (capacity 3);
+   thread 0 appends '1' (reads ref = 2: clones), thread 1 drops its handle, thread 0 appends again in place *)
+Definition ex_trace_cfg : list (nat * list cop) :=
+  [(1%nat, [CWrite 0 (WAppend 1); CWrite 0 (WAppend 2)]); (1%nat, [CDrop 0])].
+Definition ev (t : nat) (k : ekind) (r : Z) : event := {| etid := t; ekind_of := k; eres := r |}.
+Definition ex_trace : list event :=
+  [ev 0 EReadRef 2; ev 0 EAlloc 0; ev 0 ECopy 0; ev 1 EDec 1; ev 0 EDec 0; ev 0 EFree 0; ev 0 EReadRef 1; ev 0 EWrite 202].
+(* the same with the decrement of thread 0 reported before its copy, and with the release missing *)
+Definition ex_trace_bad_order : list event :=
+  [ev 0 EReadRef 2; ev 0 EAlloc 0; ev 1 EDec 1; ev 0 EDec 0; ev 0 ECopy 0; ev 0 EFree 0].
+Definition ex_trace_no_free : list event :=
+  [ev 0 EReadRef 2; ev 0 EAlloc 0; ev 0 ECopy 0; ev 1 EDec 1; ev 0 EDec 0; ev 0 EReadRef 1; ev 0 EWrite 202].
